@@ -36,6 +36,22 @@ fn main() {
     if args.len() >= 2 && args[1] == "--worker" {
         std::process::exit(worker(&args[2..]));
     }
+    if args.len() >= 3 && args[1] == "--fmt" {
+        // debugging aid: format an Aiken source file and print the result
+        let text = std::fs::read_to_string(&args[2]).expect("readable file");
+        match aiken_lang::parser::module(&text, aiken_lang::ast::ModuleKind::Lib) {
+            Ok((module, extra)) => {
+                let mut out = String::new();
+                aiken_lang::format::pretty(&mut out, module, extra, &text);
+                print!("{out}");
+                std::process::exit(0);
+            }
+            Err(errs) => {
+                eprintln!("does not parse: {errs:?}");
+                std::process::exit(1);
+            }
+        }
+    }
     if args.len() >= 3 && args[1] == "--aik" {
         std::process::exit(aik_debug(&args[2..]));
     }
